@@ -2,6 +2,7 @@ package sim
 
 import (
 	"bytes"
+	"os"
 	"crypto/sha256"
 	"encoding/hex"
 	"fmt"
@@ -266,6 +267,9 @@ func (n *Node) CheckTx(tx []byte) (resp transaction.Response, ok bool) {
 // EndBlock executes EndBlock.
 func (n *Node) EndBlock() (resp abci.ResponseEndBlock, ok bool) {
 	h := n.CurHeight
+	if os.Getenv("DBGU") != "" {
+		println("DBG-NODE", n.Name, "EndBlock", h)
+	}
 	p := n.guard("EndBlock", func() {
 		resp = n.App.EndBlock(abci.RequestEndBlock{Height: int64(h)})
 	})
@@ -283,6 +287,9 @@ func (n *Node) EndBlock() (resp abci.ResponseEndBlock, ok bool) {
 // Commit executes Commit.
 func (n *Node) Commit() (hash []byte, ok bool) {
 	var resp abci.ResponseCommit
+	if os.Getenv("DBGU") != "" {
+		println("DBG-NODE", n.Name, "Commit", n.CurHeight)
+	}
 	p := n.guard("Commit", func() {
 		resp = n.App.Commit()
 	})
@@ -345,4 +352,24 @@ func (n *Node) EmptyBlock() bool {
 	}
 	_, ok := n.Commit()
 	return ok
+}
+
+// Fork creates an independent node whose storage is a deep copy of this node's
+// storage (as of the last Commit) and whose consensus-side bookkeeping is copied.
+// Must be called between blocks.
+func (n *Node) Fork() *Node {
+	if n.CurHeight != 0 {
+		panic("Fork inside a block")
+	}
+	n.App.VerifWaitSnapshots()
+	f := &Node{W: n.W, DBs: n.DBs.Clone(), Ctl: &FaultCtl{CrashAt: -1}, TmVals: map[types.Pubkey]int64{}, pendingVal: map[uint64][]abci.ValidatorUpdate{}, KeepStates: n.KeepStates}
+	for k, v := range n.TmVals {
+		f.TmVals[k] = v
+	}
+	for h, us := range n.pendingVal {
+		f.pendingVal[h] = append([]abci.ValidatorUpdate{}, us...)
+	}
+	f.LastHeight, f.LastAppHash, f.Time = n.LastHeight, n.LastAppHash, n.Time
+	f.open()
+	return f
 }
